@@ -248,6 +248,14 @@ Theorem C05_prefix_composite_repaired : repaired SReturn MNone w_pfx_composite "
 Proof. exact prefix_composite_repaired. Qed.
 
 (* ---- the premises are satisfiable on non-trivial inputs ---- *)
+(* tuples of every arity are in the domain; the 1-tuple (f64,) is printed (f64) by type_to_string and
+   must read as the one-element array type [number]; a project type named Path is rendered by name *)
+Example C05_tuple_arity_and_names :
+  dom_b (RTuple [RPath (L "f64") []]) = true /\ tts (RTuple [RPath (L "f64") []]) = L "(f64)" /\
+  emit_type SField MNone [] (RTuple [RPath (L "f64") []]) = Some (L "[number]") /\
+  expected SField [] (RTuple [RPath (L "f64") []]) = TsTuple [TsName (L "number") []] /\
+  dom_b (RPath (L "Path") []) = true /\ emit_type SReturn MNone [] (RPath (L "Path") []) = Some (L "types.Path").
+Proof. vm_compute. repeat split; reflexivity. Qed.
 (* HashMap<String, Vec<(User, i32)>> as a Zod-mode field: clean, depth 4, and the reading of its tree *)
 Definition ex_zod : rty :=
   RPath (L "HashMap") [RPath (L "String") []; RPath (L "Vec") [RTuple [RPath (L "User") []; RPath (L "i32") []]]].
